@@ -3,7 +3,10 @@ candidate collection, compile helpers, exception classification."""
 import sys
 import types
 
-sys.path.insert(0, '/repo') if '/repo' not in sys.path else None
+import os as _os
+REPO = _os.environ.get('VERIF_REPO', '/repo')
+if sys.path[:1] != [REPO]:
+    sys.path.insert(0, REPO)
 
 from pyfront import instrument
 INSTRUMENTED = instrument.install()
